@@ -334,16 +334,31 @@ def run_shard(acc, shard, nshards, seed, tier):
     spot2 = sessions.session(minutes=(1500, 1900) if tier == 'quick' else (1500, 5800), kinds=('spot',), tfs=('5m', '15m', '1m'), max_data=0, warmup=(False,),
                              structural=False, min_symbols=2, program=dict(busy=True, resting=True, cycle=True), align_len=True)
 
+    def whole(base):
+        # 2 sessions in 5 are cut to a whole number of days (the day boundary then coincides with the end of the session)
+        @st.composite
+        def w(draw):
+            spec = draw(base)
+            if draw(st.sampled_from([False, True, False, True, False])):
+                n2 = (spec['n'] // 1440) * 1440
+                if n2 >= 1440:
+                    spec = dict(spec, candles={s_: rows[:n2] for s_, rows in spec['candles'].items()}, n=n2, fast=draw(st.booleans()))
+            return spec
+        return w()
+    sess, hold, spot2 = whole(sess), whole(hold), whole(spot2)
+
     def chk_s(spec):
         vios, flags, r = session_case(spec)
+        if spec['n'] % 1440 == 0:
+            flags.add('whole-days')
         nt = bool(flags & {'sample-with-open-position', 'sample-with-resting-buy'})
         cl = ['session:' + spec['cfg']['type'], f"routes={len(spec['routes'])}", 'fast' if spec['fast'] else 'step'] + sorted(flags)
         return dict(key=('s', spec['cfg'], spec['scripts'], {k: v[:3] for k, v in spec['candles'].items()}), nontrivial=nt, classes=cl,
                     violations=vios, sub='multi-day-sessions',
                     sample=dict(cfg=spec['cfg'], routes=spec['routes'], minutes=spec['n'], fast=spec['fast'], daily_balance=r['final']['daily_balance'] if r['final'] else None) if nt else None)
-    runner.hyp_search(acc, sess, chk_s, 2 if tier == 'quick' else 200, seed + 5, tier, known=known, shrink_calls=4 if tier == 'quick' else 40, max_shrink_sigs=1,
+    runner.hyp_search(acc, sess, chk_s, 3 if tier == 'quick' else 200, seed + 5, tier, known=known, shrink_calls=4 if tier == 'quick' else 40, max_shrink_sigs=1,
                       describe=lambda spec: dict(kind='session', spec=spec))
-    runner.hyp_search(acc, spot2, chk_s, 2 if tier == 'quick' else 200, seed + 7, tier, known=known, shrink_calls=4 if tier == 'quick' else 40, max_shrink_sigs=1,
+    runner.hyp_search(acc, spot2, chk_s, 3 if tier == 'quick' else 200, seed + 7, tier, known=known, shrink_calls=4 if tier == 'quick' else 40, max_shrink_sigs=1,
                       describe=lambda spec: dict(kind='session', spec=spec))
-    runner.hyp_search(acc, hold, chk_s, 2 if tier == 'quick' else 200, seed + 6, tier, known=known, shrink_calls=4 if tier == 'quick' else 40, max_shrink_sigs=1,
+    runner.hyp_search(acc, hold, chk_s, 3 if tier == 'quick' else 200, seed + 6, tier, known=known, shrink_calls=4 if tier == 'quick' else 40, max_shrink_sigs=1,
                       describe=lambda spec: dict(kind='session', spec=spec))
